@@ -34,9 +34,9 @@ fn consumers(b: &str, n: usize) -> String {
     s
 }
 
-pub const VARIANTS: [&str; 12] = [
+pub const VARIANTS: [&str; 13] = [
     "outerQ-innerB", "outerB-innerQ", "paramQ-innerB", "paramB-innerQ", "same-block", "for-init", "chain", "siblings", "inner-first",
-    "if-else", "loop-body", "qfunction",
+    "if-else", "loop-body", "qfunction", "qglobal",
 ];
 
 /// the function under test: `B` = the name the map must rename, `Q` = a source name of the form `B_k`
@@ -63,7 +63,11 @@ fn victim(variant: &str, b: &str, q: &str) -> String {
         ),
         // `Q` is a *function* that a body uses; the local `B` is renamed around it
         "qfunction" => format!(
-            "int {q}(int a)\n{{\n    return a + 100;\n}}\n\nint f1(int x, int y)\n{{\n    int r = {q}(x);\n    {{\n        int {b} = y + 5;\n        r += {b} * 3;\n    }}\n    return r;\n}}\n"
+            "int {q}(int a)\n{{\n    return a + 100;\n}}\n\nint f1(int x, int y)\n{{\n    int r = {q}(x);\n    {{\n        int {b} = y + 5;\n        r += {b} * 3 + {q}({b});\n    }}\n    return r;\n}}\n"
+        ),
+        // `Q` is a static *global* that the body reads and writes while the renamed local `B` is in scope
+        "qglobal" => format!(
+            "static int {q} = 4;\n\nint f1(int x, int y)\n{{\n    int r = x + {q};\n    {{\n        int {b} = y + 5;\n        {q} += {b};\n        r += {b} * 3 + {q};\n    }}\n    return r - {q};\n}}\n"
         ),
         _ => String::new(),
     };
